@@ -1,12 +1,12 @@
 #!/bin/bash
-# usage: round3.sh <seed-id> ...   — for seeds delivered in /tmp/wt3/<prop>/out/<id>/: confirm in the scratch clone, then apply to /repo,
+# usage: round3.sh <seed-id> ...   — for seeds delivered in ${WT:-/tmp/wt3}/<prop>/out/<id>/: confirm in the scratch clone, then apply to /repo,
 # run the property's quick check, revert. Prints one line per seed. Never run while another check is running.
 cd /verif || exit 2
 for s in "$@"; do
   p=${s%-*}
-  c=$(./confirm2.sh /tmp/wt3/$p $s 2>&1 | tail -1)
+  c=$(./confirm2.sh ${WT:-/tmp/wt3}/$p $s 2>&1 | tail -1)
   if [ -n "$(git -C /repo status --porcelain --untracked-files=no)" ]; then echo "repo dirty" >&2; exit 2; fi
-  if ! git -C /repo apply /tmp/wt3/$p/out/$s/patch.diff; then echo "$s: patch does not apply to /repo"; continue; fi
+  if ! git -C /repo apply ${WT:-/tmp/wt3}/$p/out/$s/patch.diff; then echo "$s: patch does not apply to /repo"; continue; fi
   GOVC_EVIDENCE_DIR=/verif/out/evidence_seed ./check $p $ONLY > /tmp/round3_$s.log 2>&1; rc=$?
   git -C /repo checkout -- .
   echo "$s: exit=$rc viol=$(grep -c '^VIOLATION' /tmp/round3_$s.log) | $(grep -m3 '^VIOLATION' /tmp/round3_$s.log | sed 's/.*obligation=//' | cut -c1-150 | tr '\n' ';') | confirm: ${c:0:60} ... ${c: -70}"
